@@ -245,6 +245,7 @@ func TestVerifC08(t *testing.T) {
 	w := &vf08World{}
 	// bind the interpreter to the current assembly text before anything else: an instruction
 	// outside the supported subset must abort the check (exit 2), not look like a violation
+	vs.AsmConsts = verifAsmConsts
 	verifProg = vs.ParseAsm(verifSpinlockAsm, "archAcquireSpinlock")
 
 	var rp vf08Replay
